@@ -189,6 +189,41 @@ def errors_map_probe():
     return before == snap()
 
 
+def module_state():
+    """module-level and class-level mutable containers (list / dict / set) of the modules of the
+    repository: [(qualified name, type, empty right after import)]; the ones that are empty after
+    import are lazily filled caches (what the scheduled runs reset to test a cold process)"""
+    import sys
+    import ombott  # noqa
+    import ombott.error_render  # noqa
+    from harness import core
+    import os
+    root = os.path.join(os.path.realpath(core.REPO), 'ombott') + os.sep
+    out = []
+    for mname, mod in sorted(sys.modules.items()):
+        f = getattr(mod, '__file__', None)
+        if not f or not os.path.realpath(f).startswith(root):
+            continue
+        for k, v in sorted(vars(mod).items()):
+            if k.startswith('__'):
+                continue
+            if isinstance(v, (list, dict, set)):
+                out.append(('%s.%s' % (mname, k), type(v).__name__, len(v) == 0))
+            elif isinstance(v, type) and v.__module__ == mname:
+                for ck, cv in sorted(vars(v).items()):
+                    if not ck.startswith('__') and isinstance(cv, (list, dict, set)):
+                        out.append(('%s.%s.%s' % (mname, k, ck), type(cv).__name__, len(cv) == 0))
+    return out
+
+
+def template_digest():
+    import hashlib
+    from ombott import error_render
+    with error_render.html.open('r') as f:
+        lines = [ln.strip() for ln in f.readlines()]
+    return hashlib.sha256('\n'.join(lines).encode('utf8')).hexdigest()[:16]
+
+
 def in_child(fn):
     """run fn() in a forked child so that probing does not touch the module state of this process"""
     import os
@@ -254,4 +289,10 @@ def generate():
     out.append('/-- a probe that makes requests fail onto every mapped error (HTML, JSON, debug pages, a custom\n'
                'error handler, two applications) left the shared objects as they were -/')
     out.append(f'def tsErrorsMapReadOnly : Bool := {lbool(emap_ro)}')
+    out.append('/-- digest of the stripped lines of error.html: what `error_render._html_lns` holds once filled -/')
+    out.append(f'def tsTemplateDigest : String := {lstr(template_digest())}')
+    out.append('/-- module-level and class-level mutable containers of the package: name, type, and whether it is\n'
+               'empty right after import (= a lazily filled cache; the scheduled runs start with these emptied) -/')
+    out.append('def tsModuleState : List (String × String × Bool) := ' +
+               llist(['(%s, %s, %s)' % (lstr(n), lstr(t), lbool(e)) for n, t, e in in_child(module_state)]))
     return '\n'.join(out) + '\n'
